@@ -268,6 +268,23 @@ def run(work, tier, replay=None):
                     mc_runs.append(dict(K="ConnSend S=%d %s" % (cs, name), Q=cn, distinct=r.get("distinct", 0), generated=r.get("generated", 0), violated=None))
                 else:
                     leads.append(dict(design="%s S=%d N=%d" % (name, cs, cn), refuted=dead))
+        # the frame path (FrameFlow.tla): the design of the code (parked updates are flushed through the member's bounded
+        # queue under the frame lock) has a deadlock - the open finding D11, replayed by scenarios/l2_D11_* - and a
+        # design that hands them over directly has none
+        for (fq, fn) in ([(2, 6)] if tier == "quick" else [(2, 6), (3, 8), (4, 9)]):
+            for flush, good in (("direct", True), ("queue", False)):
+                cfg = ('SPECIFICATION Spec\nCONSTANTS\n  Q = %d\n  N = %d\n  Flush = "%s"\nINVARIANTS TypeOK NoCallAfterCancel\n'
+                       'PROPERTIES HandlerReturns\n' % (fq, fn, flush))
+                r = work.tlc("frameflow", "FrameFlow", cfg, workers=4, timeout=900, dump=False)
+                if r.get("timeout"):
+                    raise Inconclusive("FrameFlow model check timed out")
+                dead = ("Deadlock" in open(r["log"]).read()) or ("violated" in r)
+                if good:
+                    if dead or "error" in r:
+                        raise Inconclusive("TLC refutes the direct hand-over design on FrameFlow (Q=%d, N=%d)" % (fq, fn))
+                    mc_runs.append(dict(K="FrameFlow Q=%d direct" % fq, Q=fn, distinct=r.get("distinct", 0), generated=r.get("generated", 0), violated=None))
+                else:
+                    leads.append(dict(design="frame_flush_through_queue(D11, open) Q=%d N=%d" % (fq, fn), refuted=dead))
         if not all(l["refuted"] for l in leads):
             raise Inconclusive("a design known to be wrong is not refuted by the specification: %s" % [l["design"] for l in leads if not l["refuted"]])
         work.log("ConnLife: %s; unrepaired designs refuted: %s" % (
@@ -283,13 +300,17 @@ def run(work, tier, replay=None):
                 s.setdefault("cls", "regression"); s.setdefault("life", "custom"); s["regression"] = True
                 scs.append(s)
     # run the scenarios: a few harness processes in parallel (each scenario has its own server)
+    # the scenarios that move tens of megabytes (stalled members) run after the timing-sensitive ones (idle timeouts of
+    # 250 ms), not beside them
     nproc = 4
-    parts = [scs[i::nproc] for i in range(nproc)]
+    is_heavy = lambda s: str(s.get("cls", "")).startswith("stalled_member")
+    rounds = [[s for s in scs if not is_heavy(s)], [s for s in scs if is_heavy(s)]]
     results = {}
 
     crashed = []
 
     def run_some(scl, tag):
+        tag = "%s_%d" % (tag, len(os.listdir(os.path.dirname(work.path("l2", "x")))))
         pin, pout = work.path("l2", "in%s.ndjson" % tag), work.path("l2", "out%s.ndjson" % tag)
         write_ndjson(pin, scl)
         work.run_harness(["l2", "-in", pin, "-out", pout], timeout=1500)
@@ -315,10 +336,12 @@ def run(work, tier, replay=None):
                     raise
         return out
 
-    with ThreadPoolExecutor(max_workers=nproc) as ex:
-        for out in ex.map(runpart, range(nproc)):
-            for r in out:
-                results[r["sid"]] = r
+    for rno, rs in enumerate(rounds):
+        parts = [rs[i::nproc] for i in range(nproc)]
+        with ThreadPoolExecutor(max_workers=nproc) as ex:
+            for out in ex.map(runpart, range(nproc)):
+                for r in out:
+                    results[r["sid"]] = r
     scs = [s for s in scs if s["sid"] not in {c[0]["sid"] for c in crashed}]
     if len(results) != len(scs):
         raise Inconclusive("the wire-level harness returned %d of %d scenarios" % (len(results), len(scs)))
@@ -337,6 +360,11 @@ def run(work, tier, replay=None):
                         bad.append("%s of connection %s did not complete" % (x["op"], sc["ops"][x["i"]].get("c")))
                 if r["sessions_left"]:
                     bad.append("sessions left behind: %d" % r["sessions_left"])
+            # symptom of D11 (FrameFlow.tla, Flush="queue"): the session's frame worker is blocked pushing a parked update
+            # into a member's full scheduler queue while that member waits for the frame lock the worker holds
+            stacks = r.get("goroutine_stacks") or []
+            if bad and any("[chan send]" in g and "StartDispatchFrames" in g for g in stacks) and any("RWMutex.Lock" in g for g in stacks):
+                bad.insert(0, "frame worker blocked on a member's full scheduler queue: " + bad[0])
         else:
             bad = judge(sc, r)
         if bad:
